@@ -4,6 +4,10 @@ open ZI.Classes ZI.Graph
 def nums (s : String) : List Nat := (s.splitOn " ").filterMap String.toNat?
 def shw (l : List Nat) : String := " ".intercalate (l.map toString)
 def FUEL := 64
+/-- `Specification.interfaces()` / `Declaration.__iter__`: ordered dedupe of the interfaces of the bases -/
+def interfacesOf : Nat → W → Nat → List Nat
+  | 0, _, _ => []
+  | f+1, w, s => if isIface s then [s] else dedupe ((w.g.get s).bases.flatMap (interfacesOf f w))
 partial def loop (h : IO.FS.Stream) (w : W) (fixed : Bool) : IO Unit := do
   let line ← h.getLine
   if line.isEmpty then return ()
@@ -29,6 +33,14 @@ partial def loop (h : IO.FS.Stream) (w : W) (fixed : Bool) : IO Unit := do
     | ["impl", c] =>
         let (w, s) := implementedBy FUEL w c.toNat!
         IO.println (shw ((w.sro s).filter isIface)); loop h w fixed
+    | ["plist", o] =>
+        let (w, s) := providedBy FUEL w o.toNat!
+        IO.println (shw (interfacesOf FUEL w s)); loop h w fixed
+    | ["ilist", c] =>
+        let (w, s) := implementedBy FUEL w c.toNat!
+        IO.println (shw (interfacesOf FUEL w s)); loop h w fixed
+    | ["add", c, _] => IO.println "ok"; loop h (classImplements FUEL w c.toNat! args) fixed
+    | ["only", c, _] => IO.println "ok"; loop h (classImplementsOnly FUEL w c.toNat! args) fixed
     | ["direct", o] => IO.println (shw (directlyProvidedBy w o.toNat!)); loop h w fixed
     | _ => IO.println "bad"; loop h w fixed
   | _ => IO.println "bad"; loop h w fixed
